@@ -4,6 +4,7 @@ cd /verif
 git merge --no-edit "$1" >/dev/null 2>&1
 git rm -q -f coq/Makefile coq/Makefile.conf coq/.Makefile.d 2>/dev/null
 rm -f coq/Makefile coq/Makefile.conf coq/.Makefile.d
+python3 /verif/tools/union_coqproject.py; git add coq/_CoqProject
 git checkout --ours evidence 2>/dev/null; git add evidence 2>/dev/null
 if git status --short | grep -q "^UU\|^AA\|^DU\|^UD"; then git status --short | grep "^UU\|^AA\|^DU\|^UD"; echo "CONFLICTS REMAIN"; exit 1; fi
 git commit -qm "merge $1" 2>/dev/null
